@@ -12,14 +12,24 @@ J   Judge_Ansi            long random grammar streams and arbitrary byte strings
 Named deviations of the specification (StAsCsi, SkipEmptyParam) are predicted by TLC as alternatives; a case the real
 code only matches under a deviation is reported as a violation carrying that deviation's kf signature.
 """
-import json, os, subprocess
+import json, os, re, subprocess
 import vlib
 from vlib import Infra, replay_cases, judge, write_ndjson, read_ndjson, log
 
 TEST = "TestVerifAnsi"
 FILES = ["zz_verif_common_test.go", "zz_verif_ansi_test.go"]
 KF = {"StAsCsi": {"site": "nextAnsiEscapeSequence", "kind": "esc-backslash-taken-as-csi-introducer"},
-      "SkipEmptyParam": {"site": "interpretCode", "kind": "empty-sgr-parameter-skipped"}}
+      "SkipEmptyParam": {"site": "interpretCode", "kind": "empty-sgr-parameter-skipped"},
+      "OpenSpanAtEol": {"site": "extractColor", "kind": "open-span-not-extended-when-line-ends-with-sequence"}}
+
+
+def kf_of(dv):
+    """signature of a deviation set 'A' or 'A+B' (a combination carries the names of all its members)"""
+    if dv is None:
+        return None
+    if dv in KF:
+        return KF[dv]
+    return {"site": "ansi.go", "kind": "combination", "deviations": dv}
 SYMB = {"ESC": b"\x1b", "BS": b"\x08", "SO": b"\x0e", "SI": b"\x0f", "BEL": b"\x07", "LF": b"\n", "BSL": b"\\",
         "e~": "é".encode()}
 WORKERS = int(os.environ["VERIF_WORKERS"]) if os.environ.get("VERIF_WORKERS") else None
@@ -52,6 +62,17 @@ def deviation_of(case, got):
     return None
 
 
+def action_counts(res):
+    """per-action distinct-state counts of a -coverage run (also actions whose location carries an (l c l c) suffix)"""
+    cov = {}
+    with open(res.outp, errors="replace") as fh:
+        for line in fh:
+            m = re.match(r"^<(\w+) line \d+, col \d+ to line \d+, col \d+ of module \w+(?: \([\d ]+\))?>: (\d+):(\d+)", line)
+            if m:
+                cov[m.group(1)] = cov.get(m.group(1), 0) + int(m.group(3))
+    return cov
+
+
 class Stats:
     def __init__(self):
         self.nontrivial = set()
@@ -62,6 +83,15 @@ class Stats:
 
     def count(self, k, n=1):
         self.classes[k] = self.classes.get(k, 0) + n
+
+
+def report_quota(st, d):
+    """how many more cases explained exactly by deviation (set) d to turn into violations: two per single deviation;
+    a combination only while one of its members has not been reported on its own (TLC's prediction for the
+    combination is exact, so nothing else can hide behind it)"""
+    if "+" in d and all(st.dev_reported.get(m, 0) > 0 for m in d.split("+")):
+        return 0
+    return max(0, (1 if "+" in d else 2) - st.dev_reported.get(d, 0))
 
 
 def run_bulk(ctx, h, cases, label):
@@ -97,12 +127,13 @@ def replay_split(ctx, h, cases, label, st):
             dev.setdefault(d, []).append(c)
     if plain:
         replay_cases(ctx, h, TEST, plain[:10], expected, label + "-mismatch", describe=describe)
-    for d, cs in dev.items():
+    for d in sorted(dev, key=lambda x: x.count("+")):          # singles first
+        cs = dev[d]
         st.dev_hits[d] = st.dev_hits.get(d, 0) + len(cs)
-        todo = max(0, 2 - st.dev_reported.get(d, 0))
+        todo = report_quota(st, d)
         if todo:
             replay_cases(ctx, h, TEST, cs[:todo], expected, "%s-%s" % (label, d), describe=describe,
-                         kf=lambda c, exp, r1: KF.get(deviation_of(c, r1.get("got"))))
+                         kf=lambda c, exp, r1: kf_of(deviation_of(c, r1.get("got"))))
             st.dev_reported[d] = st.dev_reported.get(d, 0) + todo
     return res
 
@@ -229,29 +260,46 @@ def gen_arbitrary(rng, maxlen):
 
 
 # ------------------------------------------------------------------ J
-def judge_records(ctx, h, inputs, label, st):
-    recs = run_bulk(ctx, h, inputs, label)
+def dev_tags(res):
+    out = {}
+    for x in res.raw_items("DEV"):
+        i, d = x.split(",", 1)
+        out[int(i.strip()) - 1] = d.strip().strip('"')
+    return out
+
+
+def judge_records(ctx, h, inputs, label, st, offset=0, recs=None):
+    """harness records of `inputs` judged by TLC; rejected records are re-run and re-judged alone before they count"""
+    if recs is None:
+        recs = run_bulk(ctx, h, inputs, label)
     bad, res = judge(ctx, "Judge_Ansi", "Judge_Ansi.cfg", recs, label, workers=WORKERS, timeout=3000)
     if not bad:
         return recs
-    for i in bad[:12]:
-        one = run_bulk(ctx, h, [inputs[i]], label + "-re")
+    tags = dev_tags(res)
+    plain = [i for i in bad if i not in tags]
+    todo = plain[:8]
+    for i in bad:
+        if i in tags:
+            d = tags[i]
+            st.dev_hits[d] = st.dev_hits.get(d, 0) + 1
+            if report_quota(st, d) > len([j for j in todo if tags.get(j) == d]):
+                todo.append(i)
+    for i in todo:
+        one = run_bulk(ctx, h, [{"lines": inputs[i]["lines"]}], label + "-re")
         bad1, res1 = judge(ctx, "Judge_Ansi", "Judge_Ansi.cfg", one, label + "-re", workers=1)
         if not bad1:
             raise Infra("%s: rejected record %d not reproduced when run alone" % (label, i))
-        devs = [x.split(",")[1].strip().strip('"') for x in res1.raw_items("DEV")]
+        d = dev_tags(res1).get(0)
         r = one[0]
         what = "%s: spec rejects what the real code did: lines=%s got=%s" % (
             label, json.dumps([show(l) for l in r.get("lines", [])]), json.dumps(r.get("got"))[:1200])
         case = {"harness": TEST, "label": label, "record": r}
-        if devs:
-            d = devs[0]
-            st.dev_hits[d] = st.dev_hits.get(d, 0) + 1
-            if st.dev_reported.get(d, 0) >= 2:
+        if d:
+            if report_quota(st, d) == 0:
                 continue
             st.dev_reported[d] = st.dev_reported.get(d, 0) + 1
-            case["kf"] = KF[d]
-            what += " (explained by deviation %s)" % d
+            case["kf"] = kf_of(d)
+            what += " (explained exactly by deviation %s)" % d
         ctx.violation(what, case)
     return recs
 
@@ -286,17 +334,17 @@ def end_to_end(ctx, cases, st, extra_args, label):
             raise Infra("%s: printed line differs in the batch but not alone: %r" % (label, show(c["lines"][0])))
         d = next((a["dv"] for a in c["alts"] if o1[0] == to_bytes(a["exp"][0]["text"])), None)
         if d:
-            st.dev_hits[d] = st.dev_hits.get(d, 0) + 1
-            if st.dev_reported.get("e2e-" + d, 0) >= 1:
+            st.dev_hits["binary:" + d] = st.dev_hits.get("binary:" + d, 0) + 1
+            if st.dev_reported.get("binary:" + d, 0) >= 1:
                 continue
-            st.dev_reported["e2e-" + d] = 1
+            st.dev_reported["binary:" + d] = 1
         n += 1
         if n > 5:
             continue
         case = {"cmd": "printf %s | fzf --ansi -f '' %s" % (show(c["lines"][0]), " ".join(extra_args)), "label": label,
                 "line": c["lines"][0], "expected_text": c["exp"][0]["text"], "printed": o1[0].decode("utf-8", "replace")}
         if d:
-            case["kf"] = dict(KF[d], via="binary")
+            case["kf"] = dict(kf_of(d), via="binary")
         ctx.violation("%s: `fzf --ansi -f ''` printed %r for the line %s; spec: %r" % (
             label, o1[0], show(c["lines"][0]), to_bytes(c["exp"][0]["text"])), case)
     ctx.cov["evaluations"] += len(sel)
@@ -312,7 +360,7 @@ def run(ctx):
         mc = ctx.mc("MC_Ansi", cfg, timeout=2400, coverage=True, workers=WORKERS, label=cfg[:-4])
         want = ["BNext"] if "Grammar" not in cfg else ["GText", "GCtl", "GStruck", "GSt", "GSgrOpen", "GGroup", "GEmpty",
                                                       "GSgrClose", "GNewLine"]
-        cov = {a.split(".")[-1]: n for a, n in mc.action_cov.items()}
+        cov = action_counts(mc)
         dead = [a for a in want if cov.get(a, 0) == 0]
         if dead:
             raise Infra("vacuous model (%s): actions never taken: %s (coverage %s)" % (cfg, dead, cov))
@@ -390,13 +438,10 @@ def run(ctx):
 
     # ---------------------------------------------------------------- (4) J: TLC judges what the real code did
     # records of the replays above (span well-formedness of the real offsets is only visible to the judge)
-    bad, _ = judge(ctx, "Judge_Ansi", "Judge_Ansi.cfg", table + judged, "replayed", workers=WORKERS, timeout=3000)
-    unexplained = [i for i in bad if i == 0]
-    if unexplained:
-        raise Infra("harness abstraction table rejected by Judge_Ansi: %s" % json.dumps(table[0]))
-    bad = [i - 1 for i in bad]
+    bad, _ = judge(ctx, "Judge_Ansi", "Judge_Ansi.cfg", table, "table", workers=1)
     if bad:
-        judge_records(ctx, h, [{"lines": judged[i]["lines"]} for i in bad[:40]], "replayed-re", st)
+        raise Infra("harness abstraction table rejected by Judge_Ansi: %s" % json.dumps(table[0]))
+    judge_records(ctx, h, judged, "replayed", st, recs=judged)
     del judged
     rng = ctx.rng
     nj = ctx.pick(2500, 30000)
